@@ -98,9 +98,15 @@ func buildISOWith(t *treeSpec, opts iso9660.FinalizeOptions, blocksize, start in
 		content += int64(len(b)) + 2*blocksize
 	}
 	size := int64(2<<20) + 2*content + int64(len(t.Dirs)+len(t.Files))*4*blocksize
+	return buildISOSized(t, opts, blocksize, start, size, monitor)
+}
+
+// buildISOSized: the range given to the filesystem is exactly [start, start+size).
+func buildISOSized(t *treeSpec, opts iso9660.FinalizeOptions, blocksize, start, size int64, monitor bool) (img *isoImage, err error) {
 	d := memdev.New(start + size + 64<<10)
 	if monitor {
 		d.Allowed = []memdev.Range{{Lo: start, Hi: start + size}}
+		d.LogEvents = true
 	}
 	var fs *iso9660.FileSystem
 	if pm := guard(func() {
@@ -143,9 +149,15 @@ func buildSquashWith(t *treeSpec, opts squashfs.FinalizeOptions, blocksize, star
 		content += int64(len(b))
 	}
 	size := int64(1<<20) + 2*content + int64(len(t.Dirs)+len(t.Files)+len(t.Links))*512
+	return buildSquashSized(t, opts, blocksize, start, size, monitor)
+}
+
+// buildSquashSized: the range given to the filesystem is exactly [start, start+size).
+func buildSquashSized(t *treeSpec, opts squashfs.FinalizeOptions, blocksize, start, size int64, monitor bool) (img *sqImage, err error) {
 	d := memdev.New(start + size + 64<<10)
 	if monitor {
 		d.Allowed = []memdev.Range{{Lo: start, Hi: start + size}}
+		d.LogEvents = true
 	}
 	var fs *squashfs.FileSystem
 	if pm := guard(func() {
